@@ -384,7 +384,7 @@ func (p *idp) mint(ans *AnsSpec, grant string, lg *login, old *rtRec) (map[strin
 	if !ans.OmitID {
 		doc["id_token"] = idTok
 		issued["id"] = map[string]any{"ex": true, "sym": idSym, "class": class, "sigOK": sigOK, "audOK": audOK,
-			"nonce": nonceSym, "exp": now + int64(life), "login": lg.sidSym}
+			"nonce": nonceSym, "exp": now + int64(life), "login": lg.sidSym, "compact": isCompactJWT(idTok)}
 		if class == "expired" {
 			issued["id"].(map[string]any)["exp"] = now - 10
 		}
@@ -498,3 +498,23 @@ func oddBody(class string) []byte {
 }
 
 func jsonSegRaw(s string) string { return b64.EncodeToString([]byte(s)) }
+
+// isCompactJWT is a structural check made independently of the JWT library: three segments, the first two
+// being base64url-encoded JSON objects.
+func isCompactJWT(t string) bool {
+	parts := strings.Split(t, ".")
+	if len(parts) != 3 {
+		return false
+	}
+	for _, p := range parts[:2] {
+		raw, err := base64.RawURLEncoding.DecodeString(strings.TrimRight(p, "="))
+		if err != nil {
+			return false
+		}
+		var m map[string]any
+		if json.Unmarshal(raw, &m) != nil || m == nil {
+			return false
+		}
+	}
+	return true
+}
